@@ -128,6 +128,16 @@ class ErrAnalysis:
             inner = self.value_tag(f, t["args"][0], None, depth + 1)
             if inner[0] != "unk":
                 return inner
+        if c in ("std::option::Option::<T>::ok_or_else", "std::result::Result::<T, E>::map_err", "std::result::Result::<T, E>::or_else") and len(t["args"]) >= 2:
+            # the Err value is manufactured by the closure: fine if that closure always pushes an error
+            from mir import closure_of_origin
+            cid = closure_of_origin(f.origin_op(t["args"][1]))
+            if cid and self.A.get(cid, False):
+                if c.endswith("map_err"):
+                    inner = self.value_tag(f, t["args"][0], None, depth + 1)
+                    if inner[0] == "ok":
+                        return ("ok",)
+                return ("erep", name)
         if c == "std::option::Option::<T>::ok_or" and t["args"]:
             o = peel(f.origin_op(t["args"][0]))
             if o[0] == "call":
@@ -599,6 +609,9 @@ class ErrAnalysis:
                         continue
                     if tag[0] == "err" and side == "ok":
                         continue
+                    if tag[0] == "erep":
+                        if side == "err":
+                            nm, ny = 1, ny or ("closure of " + tag[1])
                     if tag[0] == "stop":
                         if side == "ok":
                             nm, ny = 0, 0
@@ -675,7 +688,7 @@ class ErrAnalysis:
                     elif not must:
                         res["R"] = False
                         res["findings"].append(("ERR1", "err-unreported", node, "returns Err(()) on a path where no error message was pushed"))
-                elif tag[0] == "stop":
+                elif tag[0] in ("stop", "erep"):
                     pass
                 elif tag[0] == "call":
                     _, kind, targets, real, name = tag[:5]
